@@ -442,7 +442,8 @@ class MahalanobisMixin(BaseMetricLearner, MetricTransformer,
       """
       u = validate_vector(u)
       v = validate_vector(v)
-      transformed_diff = (u - v).dot(components_T)
+      # (the difference of unsigned or narrow integer vectors would wrap around)
+      transformed_diff = (u.astype(float, copy=False) - v).dot(components_T)
       dist = np.dot(transformed_diff, transformed_diff.T)
       if not squared:
         dist = np.sqrt(dist)
